@@ -134,8 +134,12 @@ const BOUNDARY_LINES: &[&str] = &[
     "A(1) 5",
 ];
 
+/// set by the `walk` slice: no nesting deeper than ~60 (the executable model is quadratic in it)
+static LIGHT: std::sync::atomic::AtomicBool = std::sync::atomic::AtomicBool::new(false);
+
 fn deep(rng: &mut Rng) -> String {
-    let n = rng.pick(&[30usize, 47, 48, 49, 50, 60, 100, 200, 200, 1000]);
+    let light = LIGHT.load(std::sync::atomic::Ordering::Relaxed);
+    let n = if light { rng.pick(&[30usize, 47, 48, 49, 50, 60]) } else { rng.pick(&[30usize, 47, 48, 49, 50, 60, 100, 200, 200, 1000]) };
     if rng.chance(1, 5) {
         // stacked unary operators: recursion that does not pass through a parenthesis
         let m = rng.pick(&[2usize, 3, 50, 2000]);
@@ -162,7 +166,43 @@ fn boundary_dim(rng: &mut Rng) -> String {
     }
 }
 
+/// statements of every kind a program line or a direct-mode line can hold, with the variable / line / function names the
+/// program generator uses, so that they interact with whatever the session has already built up
+fn any_statement(rng: &mut Rng) -> String {
+    match rng.below(24) {
+        0 => format!("FOR {} = {} TO {}{}", rng.pick(&["I", "J", "K", "A1", "N$"]), rng.pick(&["1", "0", "3", "X", "-1"]), rng.pick(&["3", "0", "X", "1e9", "I + 2"]), rng.pick(&["", "", " STEP 2", " STEP -1", " STEP 0", " STEP .5"])),
+        1 => format!("NEXT {}", rng.pick(&["I", "J", "K", "A1", "Z"])),
+        2 => format!("GOSUB {}", rng.pick(&["900", "10", "20", "100", "12345"])),
+        3 => "RETURN".to_string(),
+        4 => format!("GOTO {}", rng.pick(&["10", "20", "30", "900", "20.5", "77"])),
+        5 => format!("IF {} THEN {}{}", gen::num_expr(rng, 1), rng.pick(&["20", "PRINT 1", "X = X + 1", "GOSUB 900", "STOP", "INPUT Q", "NEXT I", "DEF FNA(X) = X", "END", "RETURN"]), rng.pick(&["", "", " ELSE PRINT 2", " ELSE 30", " ELSE X = 0"])),
+        6 => format!("DATA {}", rng.pick(&["1, 2, 3", "a, \"b c\", 4", "0", "-0", "", "x y ,z", "1e400", "é"])),
+        7 => format!("READ {}", rng.pick(&["A", "A$", "A, B$", "P(1)", "N$(2)", "X, Y, Z"])),
+        8 => "RESTORE".to_string(),
+        9 => format!("DIM {}", rng.pick(&["P(5)", "P(20)", "Q(2,2)", "N$(3)", "R(99,99)", "M(1,2,3)"])),
+        10 => format!("DEF FN{}({}) = {}", rng.pick(&["A", "B", "R", "Z"]), rng.pick(&["X", "Y", "X, Y", "Q$"]), rng.pick(&["X + 1", "X * Y", "FNA(X) + 1", "X / 0", "\"s\"", "P(X)", "RND(1)"])),
+        11 => format!("PRINT FN{}({})", rng.pick(&["A", "B", "R", "Z"]), rng.pick(&["1", "2, 3", "\"s\"", "FNA(1)", ""])),
+        12 => format!("INPUT {}", rng.pick(&["A", "A$", "P(2)", "N$(1)", "P(20)"])),
+        13 => rng.pick(&["STOP", "END", "CONT", "RUN", "LIST", "NEW", "TRACE", "NOTRACE"]).to_string(),
+        14 => format!("PRINT {}", rng.pick(&["A; B$", "P(1); P(2)", "N$(1)", "X,", "X;,", ";", "RND(1)", "RND(0)", "RND(0*RND(1))", "1/0", "A$ + 1", "\"a\";:", "ABS(-1) INT(2.5)"])),
+        15 => format!("{}({}) = {}", rng.pick(&["P", "Q", "N$", "M"]), rng.pick(&["1", "2,2", "0", "11", "1,2,3"]), rng.pick(&["5", "\"v\"", "P(1) + 1", "X"])),
+        16 => rng.pick(PURE_INSPECTIONS).to_string(),
+        17..=19 => gen::simple_statement(rng),
+        _ => format!("{} = {}", gen::num_var(rng), gen::num_expr(rng, 2)),
+    }
+}
+
 fn random_text(rng: &mut Rng) -> String {
+    if LIGHT.load(std::sync::atomic::Ordering::Relaxed) && rng.chance(1, 2) {
+        // the `walk` slice: mostly well-formed statements of every kind, alone, numbered, or several on a line
+        let k = rng.pick(&[1usize, 1, 1, 2, 3]);
+        let body = (0..k).map(|_| any_statement(rng)).collect::<Vec<_>>().join(rng.pick(&[" : ", ":", " :"]));
+        return match rng.below(5) {
+            0..=1 => format!("{} {}", rng.pick(&["10", "20", "30", "40", "900", "910", "5", "64000"]), body),
+            2 => rng.pick(&["10", "20", "30", "900", "20 ", "0020"]).to_string(),
+            _ => body,
+        };
+    }
     if rng.chance(1, 12) {
         return boundary_dim(rng);
     }
@@ -399,6 +439,24 @@ pub fn c01_cases(rng: &mut Rng, tier: &str) -> (Vec<Case>, bool) {
         w.op("take");
         cases.push(case_from(w, vec!["err-then-idle".into(), "snap-caps".into()], "boundary-line".into(), true, b.to_string()));
     }
+    (cases, false)
+}
+
+/// the general walk, shared by the checks of every property about the core interpreter: it adds nothing to a property's
+/// own oracles except `snap-caps` / `err-then-idle`, but every host call and every snapshot is compared with the model, so a
+/// change anywhere in the core that the property's own generator does not reach still breaks the correspondence
+pub fn walk_cases(rng: &mut Rng, tier: &str) -> (Vec<Case>, bool) {
+    let n = if tier == "thorough" { 3000 } else { 220 };
+    LIGHT.store(true, std::sync::atomic::Ordering::Relaxed);
+    let mut cases = vec![];
+    let opts = GenOpts { allow_else_resume: true, ..Default::default() };
+    for _ in 0..n {
+        let steps = rng.range(8, 70);
+        let (w, kinds) = random_walk(rng, steps, true, &opts);
+        let show = w.ops.iter().filter_map(|o| o.strip_prefix("start ").and_then(crate::imp::unhex)).map(|s| if s.len() > 30 { format!("{}…", s.chars().take(30).collect::<String>()) } else { s }).collect::<Vec<_>>().join(" | ");
+        cases.push(case_from(w, vec!["err-then-idle".into(), "snap-caps".into()], kinds.join("+"), kinds.len() >= 3, show));
+    }
+    LIGHT.store(false, std::sync::atomic::Ordering::Relaxed);
     (cases, false)
 }
 
